@@ -267,6 +267,14 @@ package snapshot
 //@   ghost var renamed bool = false
 //@   ghost update after @os.Rename#2: renamed = (result == nil)
 //@   assert @s.stc.SetDueNext: [cleared-only-after-install] arg0 == Incremental && renamed
+//@   assert @os.Rename#1: [whole-staging-directory-taken] old(s.localWALDir) != "" && arg0 == s.localWALDir
+//@   ghost var incoming string = ""
+//@   ghost update after @os.Rename#1: incoming = arg1
+//@   assert @NewStagingDir: [segments-come-from-the-moved-directory] arg0 == incoming
+//@   assert @sd.MoveWALFilesTo: [segments-go-into-the-snapshot] arg0 == s.snapTmpDirPath
+//@   ghost var movedOK bool = false
+//@   ghost update after @sd.MoveWALFilesTo: movedOK = (result == nil)
+//@   assert @os.Rename#2: [install-only-with-all-segments] old(s.localWALDir) != "" ==> movedOK
 //@   assert @os.Rename#2: [install-only-verified] (old(s.localWALDir) == "" ==> verified) && arg0 == s.snapTmpDirPath && arg1 == s.snapDirPath
 //@   ensures [nil-means-installed] (result == nil && old(s.opened)) ==> (old(s.sinkW) != nil || old(s.localWALDir) != "")
 //
@@ -481,3 +489,51 @@ package snapshot
 //@   assert @p.Execute#2: [plan-persisted-before-execution] persisted && step == 7 && p == planV
 //@   ghost update @p.Execute#2: execOK = (result == nil)
 //@   assert @os.Remove#4: [plan-file-removed-only-after-success] execOK && arg0 == planPath
+
+// ---- C04 --------------------------------------------------------------------------------------------
+//@ func (Type) IsFull
+//@   pure
+//@   ensures [def] result == (s == Full)
+//@ type StagingDir
+//@   stable dir
+//@   stable_set_in NewStagingDir
+//@ func NewStagingDir
+//@   ensures [wraps-dir] result != nil && result.dir == dir
+//@ func (*StagingDir) Path
+//@   pure
+//@   requires [recv] s != nil
+//@   ensures [def] result == s.dir
+// The segment writer: Cancel removes the partial file unless Close completed; MoveWALFilesTo moves
+// every staged segment with its checksum file, keeping its name (hence its order).
+//@ func (*WALWriter) Close
+//@   requires [recv] w != nil
+//@   assigns **
+//@   ensures [closed-on-success] result == nil ==> w.closed
+//@ func (*WALWriter) Cancel
+//@   requires [recv] w != nil
+//@   assigns **
+//@   assert @os.Remove: [never-after-close] !old(w.closed)
+//@   ensures [closed-stays] old(w.closed) ==> w.closed
+//@ func (*StagingDir) MoveWALFilesTo
+//@   requires [recv] s != nil
+//@   assigns **
+//@   ghost var nMoved int = 0
+//@   ghost var base string = ""
+//@   ghost var dstP string = ""
+//@   ghost var walMoved bool = false
+//@   ghost update after @filepath.Base: base = result
+//@   assert @filepath.Base: [name-of-the-segment] arg0 == srcPath
+//@   assert @filepath.Join: [same-name-in-destination] arg0 == dst && arg1 == base
+//@   ghost update after @filepath.Join: dstP = result
+//@   assert @os.Rename#1: [segment-moved] arg0 == srcPath && arg1 == dstP
+//@   ghost update after @os.Rename#1: walMoved = (result == nil)
+//@   assert @os.Rename#2: [checksum-moved-with-it] walMoved && arg0 == srcPath + ".crc32" && arg1 == dstP + ".crc32"
+//@   ghost update after @os.Rename#2: nMoved = ite(result == nil, nMoved + 1, nMoved)
+//@   loop 1 invariant [all-so-far] nMoved == _i
+//@   ensures [nil-means-all-moved] (result == nil) ==> nMoved == nFiles
+//@   ghost var nFiles int = 0
+//@   ghost update after @s.WALFiles: nFiles = len(result0)
+//@ func (*StagingDir) CreateWAL
+//@   requires [recv] s != nil
+//@   assigns **
+//@   ensures [writer-on-success] result2 == nil ==> (result0 != nil && !result0.closed)
